@@ -48,6 +48,8 @@ CONSTANTS
   MaxRefs = {MaxRefs}
   Strategy = "{Strategy}"
   ExactPool = TRUE
+  AsIs = {asis}
+  EmptyLive = {emptylive}
 VIEW view
 CONSTRAINT PoolBound
 INVARIANTS FlagsSane CleanIsDurable Accounting KeysOK CellsOK CatalogOK Limits
@@ -75,7 +77,7 @@ def mc_walk(name, cfg, consts=None, workers=8, threads=8, trace_every=0, timeout
     """Model-checks MC_Msi with alphabet `cfg`; every transition is piped into `mv walk`,
     which replays it on the real library.  Returns TLC statistics, the walk summary, violations."""
     ensure_dirs()
-    c = {"MaxCols": 32, "MaxRows": 65536, "RcCap": 2, "MaxRefs": 65535, "Strategy": "ff"}
+    c = {"MaxCols": 32, "MaxRows": 65536, "RcCap": 2, "MaxRefs": 65535, "Strategy": "ff", "asis": "{}", "emptylive": "FALSE"}
     c.update(consts or {})
     cfgpath = os.path.join(OUT, "cfg", "MC_%s.cfg" % name)
     with open(cfgpath, "w") as f:
@@ -164,6 +166,8 @@ CONSTANTS
   MaxRefs = 65535
   Strategy = "ff"
   ExactPool = TRUE
+  AsIs = {}
+  EmptyLive = FALSE
   InvSkip = {}
 POSTCONDITION Accepted
 CHECK_DEADLOCK FALSE
